@@ -215,6 +215,8 @@ pub struct SObj {
     pub cell: Option<u8>,
     pub dropped: bool,
     pub freed: bool,
+    /// allocated while the arena reported Sweeping, in the sweep that is still running
+    pub born_sweeping: bool,
 }
 
 #[derive(Clone, Debug, Default)]
@@ -389,7 +391,7 @@ impl World {
 
     /// New shadow object; returns its local id.
     pub fn alloc_id(&mut self, kind: u8) -> u8 {
-        self.sh.objs.push(SObj { kind, s: [None; 2], w: None, leaf: None, wl: None, cell: None, dropped: false, freed: false });
+        self.sh.objs.push(SObj { kind, s: [None; 2], w: None, leaf: None, wl: None, cell: None, dropped: false, freed: false, born_sweeping: false });
         assert!(self.sh.objs.len() < 120, "harness: id space exhausted");
         (self.sh.objs.len() - 1) as u8
     }
@@ -593,6 +595,7 @@ impl World {
         let this: &World = self;
         let mut up_ok = [0u64; 4];
         let mut up_no = [0u64; 4];
+        let (d0, f0) = (drops_len(), talloc::gc_frees_len());
         let r: VResult = this.arena().mutate(|mc, root| -> VResult {
             let m = this.locate(root)?;
             for (i, o) in this.sh.objs.iter().enumerate() {
@@ -656,6 +659,9 @@ impl World {
             Ok(())
         });
         r?;
+        if drops_len() != d0 || talloc::gc_frees_len() != f0 {
+            viol!("c03.destructed_in_callback", "a value was destructed or released inside a mutate callback that only queried weak pointers (is_dropped / upgrade)");
+        }
         for p in 0..4 {
             if up_ok[p] > 0 {
                 self.cov.add(["upgrade_ok@Sleeping", "upgrade_ok@Marking", "upgrade_ok@Marked", "upgrade_ok@Sweeping"][p], up_ok[p]);
@@ -786,6 +792,15 @@ impl World {
             v.push(self.cycle_prot.len() as u8);
             for r in &self.cycle_prot {
                 v.push(p(Some(*r)));
+            }
+        }
+        if self.sc.born_canon {
+            for o in &snap.all {
+                if let Some(id) = idof(o.addr) {
+                    if id < 120 {
+                        v.push(self.sh.objs[id as usize].born_sweeping as u8);
+                    }
+                }
             }
         }
         if self.sc.metrics_canon {
